@@ -190,7 +190,7 @@ Section Stream.
       change (drop 6 (kt :: vt :: r2)) with (drop 4 r2) in HR1.
       assert (HP1 : P (drop 4 r2)) by (apply (Pd (kt :: vt :: r2) 6 HP)).
       pose proof (unbe4_lt r2 W2) as Hu. set (u := unbe (take 4 r2)) in *.
-      destruct (Z.ltb_spec (Z.of_N u) 0); [exfalso; lia|].
+      rewrite i32_neg by exact Hu.   (* since /repo 2c7f196: if int32(sz) < 0 *)
       destruct (N.leb_spec two31 u) as [Hneg|Hpos]; [exact I|].
       rewrite (tts_ok SBufferReader kt Hkt), (tts_ok SBufferReader vt Hvt). unfold sret. cbn [sbind].
       rewrite !fixed_width_pos.
@@ -223,7 +223,7 @@ Section Stream.
       change (drop 5 (et :: r1)) with (drop 4 r1) in HR1.
       assert (HP1 : P (drop 4 r1)) by (apply (Pd (et :: r1) 5 HP)).
       pose proof (unbe4_lt r1 W1) as Hu. set (u := unbe (take 4 r1)) in *.
-      destruct (Z.ltb_spec (Z.of_N u) 0); [exfalso; lia|].
+      rewrite i32_neg by exact Hu.   (* since /repo 2c7f196: if int32(sz) < 0 *)
       destruct (N.leb_spec two31 u) as [Hneg|Hpos]; [exact I|].
       rewrite (tts_ok SBufferReader et Het). unfold sret. cbn [sbind].
       rewrite !fixed_width_pos.
